@@ -686,10 +686,6 @@ class Fxp():
         elif isinstance(val, (int, float, complex)):
             vdtype = type(val)
 
-            # a Python integer outside the int64 range is kept exact (np.array would turn it into uint64 or float64)
-            if isinstance(val, int) and not (-2**63 <= val < 2**63):
-                val = np.array(val, dtype=object)
-
         elif isinstance(val, (np.ndarray, np.generic)):
             if isinstance(val, object):
                 vdtype = type(val.item(0))
@@ -741,7 +737,11 @@ class Fxp():
             raise ValueError('Not supported input type: {}'.format(type(val)))
 
         # convert to (numpy) ndarray
-        val = np.array(val)
+        if isinstance(val, int) and not (-2**63 <= val < 2**63):
+            # a Python integer outside the int64 range is kept exact (np.array would turn it into uint64 or float64)
+            val = np.array(val, dtype=object)
+        else:
+            val = np.array(val)
 
         if vdtype is None:
             vdtype = val.dtype
